@@ -7,6 +7,8 @@ Nothing of the implementation under test is used.
 `files`   : list of dicts {name: str, data: bytes|None, attr: int|None}; data None = entry without a data
             stream (the EmptyStream bit is set unless `lie_stream` is given)
 `layout`  : "solid" (one folder holding all streams) | "per-file" (one folder per stream)
+            a file dict may carry "empty_file": True (with data None): the entry is flagged EmptyStream AND listed
+            in the EmptyFile vector (0x0F) — the way every 7-Zip stores a zero-byte file
 `lie_stream` : indices of files that have NO data but are NOT flagged EmptyStream (a listed file without a
             data stream: more stream-carrying files than folder streams)
 """
@@ -75,6 +77,10 @@ def write_7z(files, layout="solid", lie_stream=(), substreams=True, attr_externa
     if any(empty):
         v = bitvec(empty)
         h += bytes([0x0E]) + num(len(v)) + v
+        ef = [bool(f.get("empty_file")) for f, e in zip(files, empty) if e]
+        if any(ef):                            # EmptyFile: one bit per EmptyStream entry
+            v2 = bitvec(ef)
+            h += bytes([0x0F]) + num(len(v2)) + v2
     names = bytes([0x00]) + b"".join(f["name"].encode("utf-16-le", "surrogatepass") + b"\x00\x00" for f in files)
     h += bytes([0x11]) + num(len(names)) + names
     if any(f.get("attr") is not None for f in files):
